@@ -24,7 +24,8 @@
 From Coq Require Import String.
 From MW Require Import Model.Base Model.F64 Model.Num Model.NumArith Model.Datum Model.Lex Model.Parse
   Model.TransformDef Model.Transform Model.VmTypes Model.Heap Model.VmBase Model.Compile Model.Gc
-  Model.Depth Proofs.DepthProofs Proofs.DepthProofs2.
+  Model.Depth Proofs.DepthProofs Proofs.DepthProofs2 Proofs.DepthProofs3 Proofs.DepthProofs4
+  Model.Vm Model.Builtins.
 Open Scope nat_scope.
 
 (* the property at full strength, in the model's vocabulary: every pass has bounded native
@@ -257,10 +258,167 @@ Example equal_flat_improper :
   equal_d Debug h store_empty 50 (VPtr 3) (VPtr 6) = (3, Ok false).
 Proof. vm_compute. reflexivity. Qed.
 
+(* ------------------------------------------- formerly OPEN (work package c19c): quote chains *)
+(* ''''a is (quote (quote (quote (quote a)))): every quote is a two-element list.  Heap image
+   [qt_heap n] (Proofs/DepthProofs3.v): 0 = (), 1 = quote, 2 = a, level j at address 2j+2.
+   get_as_cell: exactly two frames per quote (get_as_cell(Ptr) -> get_as_cell(Pair), whose loop
+   walks (quote x) and calls get_as_cell(Ptr x)), and the datum comes back *)
+Theorem C19_get_as_cell_quote_exact : forall bname s n j fuel, j <= n -> fuel >= 4 * j + 2 ->
+  gac_d bname (qt_heap n) s fuel (VPtr (N.of_nat (2 * j + 2))) = (2 * j + 2, Ok (quote_chain j)).
+Proof. exact gac_quote_exact. Qed.
+Print Assumptions C19_get_as_cell_quote_exact.
+Theorem C19_get_as_cell_quote_unbounded : forall bname s k fuel, fuel >= 4 * k + 2 ->
+  fst (gac_d bname (qt_heap k) s fuel (VPtr (N.of_nat (2 * k + 2)))) > k.
+Proof. exact gac_quote_unbounded. Qed.
+Print Assumptions C19_get_as_cell_quote_unbounded.
+(* mark: one frame per quote (the cdr of (quote x) is followed in the loop, x is a nested call) *)
+Theorem C19_mark_quote_ge : forall s vd n j fuel, j <= n -> fuel >= 2 * j ->
+  fst (mark_d (qt_heap n) s vd fuel (N.of_nat (2 * j + 2)) tempty) >= S j.
+Proof. exact mark_quote_ge. Qed.
+Print Assumptions C19_mark_quote_ge.
+(* the witness heap has the depth of what put_cell builds for ''''a (instance; in general by the
+   correspondence run), and mark's bound is attained *)
+Example quote_heap_is_put_cell_shape :
+  match maybe_put_cell (heap_new 64) store_empty (quote_chain 12) with
+  | Ok (v, h, s) => gac_d (fun _ => []) h s 200 v = (2 * 12 + 2, Ok (quote_chain 12))
+  | _ => False
+  end.
+Proof. vm_compute. reflexivity. Qed.
+Example quote_depths_20 :
+  gac_d (fun _ => []) (qt_heap 20) store_empty 100 (VPtr 42) = (42, Ok (quote_chain 20)) /\
+  fst (mark_d (qt_heap 20) store_empty 3 100 42 tempty) = 21.
+Proof. vm_compute. split; reflexivity. Qed.
+
+(* equal? on two disjoint copies of ''''a in one heap ([qt2_heap n]: `quote` and `a` interned,
+   hence shared; the copies of level j at [qL j], [qR j]): EXACTLY 2j+1 frames (equal ->
+   compare_pair -> equal on the quoted datum), answer #t *)
+Theorem C19_equal_quote_exact : forall prof s n j fuel, j <= n -> fuel >= 3 * j + 1 ->
+  equal_d prof (qt2_heap n) s fuel (VPtr (qL j)) (VPtr (qR j)) = (2 * j + 1, Ok true).
+Proof. exact equal_quote_exact. Qed.
+Print Assumptions C19_equal_quote_exact.
+Theorem C19_equal_quote_unbounded : forall prof s k fuel, fuel >= 3 * k + 4 ->
+  fst (equal_d prof (qt2_heap (S k)) s fuel (VPtr (qL (S k))) (VPtr (qR (S k)))) > k.
+Proof. exact equal_quote_unbounded. Qed.
+Print Assumptions C19_equal_quote_unbounded.
+Example equal_quote_20 :
+  (qL 20, qR 20) = (81%N, 82%N) /\
+  equal_d Debug (qt2_heap 20) store_empty 100 (VPtr 81) (VPtr 82) = (41, Ok true).
+Proof. vm_compute. split; reflexivity. Qed.
+(* the same depth on two copies of ''''a stored by put_cell in one heap *)
+Example equal_quote_put_cell_shape :
+  match maybe_put_cell (heap_new 64) store_empty (quote_chain 12) with
+  | Ok (v1, h1, s1) =>
+      match maybe_put_cell h1 s1 (CPair (CSym QUOTE) (CPair (quote_chain 11) CNil)) with
+      | Ok (v2, h2, s2) => v1 <> v2 /\ equal_d Debug h2 s2 100 v1 v2 = (2 * 12 + 1, Ok true)
+      | _ => False
+      end
+  | _ => False
+  end.
+Proof. vm_compute. split; [discriminate|reflexivity]. Qed.
+
+(* ------------------------------------------------------ equal? through nested vectors *)
+(* two disjoint copies of #(#(#( () ))) ([vec2_heap n], [vec2_store n]; level i at 2i-1, 2i):
+   EXACTLY 2i+1 frames (equal -> compare_vector -> equal per element), answer #t *)
+Theorem C19_equal_vector_exact : forall prof n i fuel, 1 <= i -> i <= n -> fuel >= i + 1 ->
+  equal_d prof (vec2_heap n) (vec2_store n) fuel (VPtr (N.of_nat (2 * i - 1))) (VPtr (N.of_nat (2 * i)))
+  = (2 * i + 1, Ok true).
+Proof. exact equal_vec_exact. Qed.
+Print Assumptions C19_equal_vector_exact.
+Theorem C19_equal_vector_unbounded : forall prof k fuel, fuel >= k + 2 ->
+  fst (equal_d prof (vec2_heap (S k)) (vec2_store (S k)) fuel
+         (VPtr (N.of_nat (2 * S k - 1))) (VPtr (N.of_nat (2 * S k)))) > k.
+Proof. exact equal_vec_unbounded. Qed.
+Print Assumptions C19_equal_vector_unbounded.
+Example equal_vector_20 :
+  equal_d Debug (vec2_heap 20) (vec2_store 20) 100 (VPtr 39) (VPtr 40) = (41, Ok true).
+Proof. vm_compute. reflexivity. Qed.
+Example equal_vector_put_cell_shape :
+  match maybe_put_cell (heap_new 64) store_empty (nest_vec 12) with
+  | Ok (v1, h1, s1) =>
+      match maybe_put_cell h1 s1 (nest_vec 12) with
+      | Ok (v2, h2, s2) => v1 <> v2 /\ equal_d Debug h2 s2 100 v1 v2 = (2 * 12 + 1, Ok true)
+      | _ => False
+      end
+  | _ => False
+  end.
+Proof. vm_compute. split; [discriminate|reflexivity]. Qed.
+
+(* ------------------------------------------- mark through closure and continuation chains *)
+(* a closure whose environment holds a closure whose environment holds ...  The witness
+   [clo_heap n] / [clo_store n] (Proofs/DepthProofs4.v) has the layout OClosureAcc builds for
+   (define (mk c) (lambda () c)) (mk (mk (mk ...))): level k = frame environment of mk
+   [Ptr previous closure] at 3k-2, the closure's environment [LexPtr (3k-2) 0] at 3k-1, the
+   closure at 3k.  FIVE frames per closure: mark(closure) -> mark(environment) ->
+   mark_vcell(LexPtr) -> mark(frame environment) -> mark_vcell(Ptr) -> mark(next closure) *)
+Theorem C19_mark_closure_ge : forall vd n k fuel, k <= n -> fuel >= 3 * k -> vd >= 1 ->
+  fst (mark_d (clo_heap n) (clo_store n) vd fuel (N.of_nat (3 * k)) tempty) >= 5 * k + 1.
+Proof. exact mark_closure_ge. Qed.
+Print Assumptions C19_mark_closure_ge.
+Theorem C19_mark_closure_unbounded : forall vd k fuel, fuel >= 3 * k + 3 -> vd >= 1 ->
+  fst (mark_d (clo_heap (S k)) (clo_store (S k)) vd fuel (N.of_nat (3 * S k)) tempty) > k.
+Proof. exact mark_closure_unbounded. Qed.
+Print Assumptions C19_mark_closure_unbounded.
+Example mark_closure_20 : fst (mark_d (clo_heap 20) (clo_store 20) 5 100 60 tempty) = 101.
+Proof. vm_compute. reflexivity. Qed.
+
+(* the chain the VM MODEL builds by running the program (no prelude needed): result in acc *)
+Definition mark_depth_of_acc (prog : text) : option (vcell * nat) :=
+  match boot_with [] with
+  | Some s0 =>
+      let '(_, s1) := eval_text_all 10 prog s0 [] in
+      match acc s1 with
+      | VPtr p => Some (cell_at (hp s1) p, fst (mark_d (hp s1) (st s1) 5 1000 p tempty))
+      | _ => None
+      end
+  | None => None
+  end.
+(* k closures around the number 0: 5 frames per closure (the innermost slot holds an immediate:
+   mark_vcell returns at once, 4 frames for that level) + the frame of the first mark *)
+Example closure_chain_built_by_the_vm :
+  match mark_depth_of_acc (S_ "(define (mk c) (lambda () c)) (mk (mk (mk (mk (mk 0)))))"%string) with
+  | Some (VClosure _ _, d) => d = 5 * 5
+  | _ => False
+  end.
+Proof. vm_compute. reflexivity. Qed.
+Example closure_chain_built_by_the_vm_8 :
+  match mark_depth_of_acc
+          (S_ "(define (mk c) (lambda () c)) (mk (mk (mk (mk (mk (mk (mk (mk 0))))))))"%string) with
+  | Some (VClosure _ _, d) => d = 5 * 8
+  | _ => False
+  end.
+Proof. vm_compute. reflexivity. Qed.
+
+(* a continuation whose saved stack holds the previous continuation ...  Witness [cont_heap n] /
+   [cont_store n]: the layout of (define (mk n acc) (if (= n 0) acc (mk (- n 1) (call/cc
+   (lambda (c) c))))) — mk is a tail loop, every captured stack is the one frame of mk whose
+   slot acc points to the previous continuation object.  TWO frames per continuation:
+   mark(continuation) -> mark_vcell(stack slot) -> mark(previous continuation) *)
+Theorem C19_mark_continuation_ge : forall vd n k fuel, k <= n -> fuel >= k -> vd >= 1 ->
+  fst (mark_d (cont_heap n) (cont_store n) vd fuel (N.of_nat (k + 1)) tempty) >= 2 * k + 1.
+Proof. exact mark_cont_ge. Qed.
+Print Assumptions C19_mark_continuation_ge.
+Theorem C19_mark_continuation_unbounded : forall vd k fuel, fuel >= k + 1 -> vd >= 1 ->
+  fst (mark_d (cont_heap (S k)) (cont_store (S k)) vd fuel (N.of_nat (S k + 1)) tempty) > k.
+Proof. exact mark_cont_unbounded. Qed.
+Print Assumptions C19_mark_continuation_unbounded.
+Example mark_continuation_20 : fst (mark_d (cont_heap 20) (cont_store 20) 5 100 21 tempty) = 41.
+Proof. vm_compute. reflexivity. Qed.
+Example continuation_chain_built_by_the_vm :
+  match mark_depth_of_acc
+          (S_ "(define (mk n acc) (if (= n 0) acc (mk (- n 1) (call/cc (lambda (c) c))))) (mk 3 #f)"%string),
+        mark_depth_of_acc
+          (S_ "(define (mk n acc) (if (= n 0) acc (mk (- n 1) (call/cc (lambda (c) c))))) (mk 9 #f)"%string) with
+  | Some (VCont _, d3), Some (VCont _, d9) => d3 = 2 * 3 + 4 /\ d9 = 2 * 9 + 4
+  | _, _ => False
+  end.
+Proof. vm_compute. split; reflexivity. Qed.
+
 (* ---------------------------------------------------------------------- OPEN *)
 (* Not proved (exercised by the correspondence and the grid only):
-   - get_as_cell / mark / equal? through quote chains, equal? through nested vectors;
-   - mark through a chain of closures / of continuations is unbounded (needs the lambda and
-     environment payloads of Model/Vm.v in the witness heap);
    - the VM run loop adds no native frame per Scheme call (non-tail recursion, closure and
-     continuation chains at run time): run.rs is a loop by inspection; not modelled here. *)
+     continuation chains at run time): run.rs is a loop by inspection; not modelled here;
+   - mark through quote / closure / continuation chains is a LOWER bound (the marking state
+     threaded through the traversal is not characterised); the instances above show the bounds
+     are attained on the witness heaps (quote: j+1, closure: 5k+1, continuation: 2k+1);
+   - that the witness heaps are, for EVERY k, what put_cell / the VM build (shown on instances
+     by vm_compute; in general by the correspondence run). *)
